@@ -59,6 +59,9 @@ def make_case(r):
         exp_types, value = ["network.domain"], ind
     elif kind == "email":
         ind = netgen.email(r)
+        if r.random() < 0.3:
+            # short host names are e-mail hosts too (the seven character minimum is about free-text domains)
+            ind = ind.split(b"@")[0] + b"@" + r.choice([b"qq.com", b"t.co", b"gmx.de", b"a.io", netgen.label(r, 2, 3) + b".com"])
         exp_types, value = ["network.email"], ind
     elif kind == "url":
         ind = simple_url(r)
